@@ -111,11 +111,15 @@ def corruptions(doc, rng):
         return json.loads(json.dumps(doc))
     # renamed references
     d = clone(); d["params"][0]["type"] = "NOPE"; out.append(("dangling-type", d))
+    # names are whole names: a reference that merely ends in (or starts with) an existing name denotes nothing
+    d = clone(); d["params"][0]["type"] = "NOPE/" + d["params"][0]["type"]; out.append(("dangling-type-path-like", d))
+    d = clone(); d["params"][1]["type"] = d["params"][1]["type"] + " "; out.append(("dangling-type-trailing-blank", d))
     for j, c in enumerate(cs):
         for k, (kind, n) in enumerate(c["entries"]):
             d = clone(); d["conts"][j]["entries"][k][1] = "NOPE"; out.append((f"dangling-{'param' if kind == 'p' else 'nested'}", d))
         if c["base"]:
             d = clone(); d["conts"][j]["base"] = "NOPE"; out.append(("dangling-base", d))
+            d = clone(); d["conts"][j]["base"] = "NOPE/" + c["base"]; out.append(("dangling-base-path-like", d))
     # duplicates
     d = clone(); d["types"].append("T1"); out.append(("dup-type", d))
     d = clone(); d["params"].append({"name": "P2", "type": "T1"}); out.append(("dup-param", d))
